@@ -34,6 +34,8 @@ def _from_new_code(p, f, e, depth=0):
         return False
     for x in walk(e):
         r = x.get('ref') or {}
+        if r.get('k') == 'Binding':
+            return True             # a structured binding: the reference tree had none
         if r.get('k') == 'Local':
             if r['n'] not in fl:
                 return True
